@@ -51,3 +51,5 @@ for _mod, _cls, _kind in [("sedpack/io/npz/iterate_npz.py", "IterateShardNP", "n
 # process_and_list contract above: ITEMS(PALF(k,ds,pr)(x)) = map(FOI(pr), ITEMS(ITERV(k,ds,x))))
 axiom("forall(lambda k, ds, pr, s: FLATS(MAPS(PALF(k, ds, pr), s)) == ite_stream(pr != None_U(), MAPS(pr, FLATS(MAPS(RD(k, ds), s))), FLATS(MAPS(RD(k, ds), s))), k='U', pr='U', s='STREAM')")
 axiom("forall(lambda k, ds, pr, m: FLATMS(MAPMS(PALF(k, ds, pr), m)) == ite_ms(pr != None_U(), MAPMS(pr, FLATMS(MAPMS(RD(k, ds), m))), FLATMS(MAPMS(RD(k, ds), m))), k='U', pr='U', m='MS')")
+for _cls, _kind in [("IterateShardNP", "npz"), ("IterateShardFlatBuffer", "fb")]:
+    axiom("forall(lambda ds, pr, x: APP(METHV(%r, 'iterate_shard_async', ds, pr), x) == ITERV(%r, ds, x), pr='U', x='U')" % (_cls, _kind))
